@@ -599,3 +599,26 @@ Proof.
   - intros N. inversion N; subst. apply H1. left. reflexivity.
   - intros [_ _ N _]. vm_compute in N. inversion N; subst. apply H1. left. reflexivity.
 Qed.
+
+(* ---------------------------------------------------------------- the write side of noninterference *)
+
+(* a client scribble changes client-owned cells only: no arena, no cached / pooled / held block buffer, no iterator
+   buffer changes; the records do not change at all *)
+Theorem scribble_hits_client_memory_only c pbase p i pos g :
+  let s := xfinal xfixed c pbase p in
+  let s' := xscribble s i pos g in
+  (forall l, hown (xhp s) l <> Some Client -> hget (xhp s') l = hget (xhp s) l) /\
+  (forall l, hown (xhp s') l = hown (xhp s) l) /\
+  xset_hp s' (xhp s) = s.
+Proof.
+  cbv zeta. pose proof (XInv_final c pbase p) as X. set (s := xfinal xfixed c pbase p) in *.
+  unfold xscribble. destruct (nth_error (xcvis s) i) as [r|] eqn:Er.
+  - assert (Ht : hown (xhp s) (rloc r) = Some Client).
+    { destruct X as [R _]. apply (r_claims _ _ _ _ R (rloc r) Client). unfold claims. apply in_or_app. left.
+      apply in_map_iff. exists r. split; auto. eapply nth_error_In; eauto. }
+    split; [|split].
+    + intros l Hl. unfold xset_hp, xhp. cbn [xbm xset_bm bh bm_hp]. apply hget_hset_other. intros <-. apply Hl. exact Ht.
+    + intros l. unfold xset_hp, xhp. cbn [xbm xset_bm bh bm_hp]. apply hown_hset.
+    + unfold xset_hp, xhp. destruct s as [[h p0 ca] q m f li t sn it cl cv]. reflexivity.
+  - split; [|split]; auto. unfold xset_hp, xhp. destruct s as [[h p0 ca] q m f li t sn it cl cv]. reflexivity.
+Qed.
